@@ -533,7 +533,14 @@ func vsrvC16Probe(s *vsrvSession, rng *rand.Rand, d *vsrvC16Desc) {
 		}
 		h := h2ref.ParseHeader(partial)
 		need := int(h.Length) - (len(partial) - h2ref.HeaderLen)
-		if need > 0 && need <= 1<<24 {
+		if need > 1<<20 {
+			// The server reads frames of at most 16 KiB here and must refuse a longer one when it
+			// sees its header; a megabyte of payload is more than enough to find out. (A server
+			// that wrongly went on reading the payload would swallow the PING below and fail
+			// the liveness probe.)
+			need = 1 << 20
+		}
+		if need > 0 {
 			fill = append(fill, make([]byte, need)...)
 		}
 		d.Notes = append(d.Notes, fmt.Sprintf("probe: completing partial frame with %d zero bytes", len(fill)))
